@@ -14,7 +14,12 @@ def run(tier, seed):
         {"prog": "arena", "strategy": "random", "runs": (80, 1000), "args": ["--rate", "2"], "env": rof},
         {"prog": "arena", "strategy": "random", "runs": (80, 1000), "args": ["--rate", "2"], "env": p0},
     ]
-    V, cov = concfam.run_conc("C14", tier, seed, jobs, GUARDS, mc=("MiBitmap", ("MiBitmap_mc.cfg", "MiBitmap_mc_thorough.cfg")), guided_progs=(), finish=False)
+    # sequential history in an arena of two bitmap fields: objects of one, four and three blocks, the four-block one across the field boundary; after
+    # everything was freed the arena is refilled completely (RefillComplete / NothingReservedBehind)
+    V0, cov0 = apifam.run_api("C14", tier, seed, profiles=["c15"], builds=["rel", "dbg"], own_guards=GUARDS, crash_decisive=True, gen=(0, 0), nruns=(1, 2), ops=(300, 1000),
+                              maxlive=(60, 100), shim=True, finish=False, extra_runs=[{"_args": ["--scenario", "arena96"], "_tag": "arena96"}])
+    V, cov = concfam.run_conc("C14", tier, seed, jobs, GUARDS, mc=("MiBitmap", ("MiBitmap_mc.cfg", "MiBitmap_mc_thorough.cfg")), guided_progs=(), finish=False, V=V0)
+    cov["sequential_arena96"] = {k: cov0.get(k) for k in ("traces_validated_against_impl", "trace_events_validated")}
     # second bounded model: a purge-style try_claim/unclaim thread next to two claimers
     mc2 = vlib.tlc_mc("MiBitmap", "MiBitmap_mc_purge.cfg", workers=8, timeout=900, coverage=False)
     if mc2["violation"]:
